@@ -154,7 +154,7 @@ func TestHandlers(t *testing.T) {
 		}
 		src, _ := m.Render(p, eng.RapidLayout{T: t, Calm: true})
 		c := Case{Src: src, Endless: endless, Handler: true}
-		done := h.WatchFail(src, 5*time.Minute, &h.Failure{Property: "C14", Kind: "handler-never-yields", Detail: "the delivery of an event did not come back within 5 minutes: the handler runs a loop without yielding", Src: src, Case: c})
+		done := h.WatchProgress(src, rec.YieldTicks.Load, 3*time.Minute, &h.Failure{Property: "C14", Kind: "handler-never-yields", Detail: "the delivery of an event did not yield for 3 minutes: the handler runs a loop without yielding", Src: src, Case: c})
 		defer done()
 		fl, markers, yields := checkHandler(c)
 		ctx.Report(t, fl)
